@@ -332,3 +332,19 @@ theorem Refines.run {ω τ : Type} {sl : Slave ω τ} {f : Nat → Nat} {nb : Na
   exact this
 
 end Litex.WbMem
+
+namespace Litex.WbMem
+open Litex
+
+/-- Restricting the inputs (and renaming the address decoding where it agrees on them) keeps a refinement. -/
+theorem Refines.restrict {ω τ : Type} {sl : Slave ω τ} {f : Nat → Nat} {nb : Nat} {P : Req × ω → Prop}
+    {Inv : τ → Option Req → Mem → Prop} (h : Refines sl f nb P Inv) (P' : Req × ω → Prop) (f' : Nat → Nat)
+    (hPf : ∀ i, P' i → P i ∧ f' i.1.adr = f i.1.adr) : Refines sl f' nb P' Inv := by
+  intro s p M i hinv hhold hP'
+  obtain ⟨hPi, hf⟩ := hPf i hP'
+  have hs := h s p M i hinv hhold hPi
+  have hop : opNow sl f' s i = opNow sl f s i := by simp [opNow, hf]
+  unfold StepOk at hs ⊢
+  rw [hop]; exact hs
+
+end Litex.WbMem
